@@ -880,6 +880,14 @@ def parse_template(text):
         if mm:
             c = Clause(mm.group(1), mm.group(2), mm.group(3))
             cur.clauses.append(c); last = ("clause", c); i += 1; continue
+        mm = re.match(r"^loop\s+(\d+)\s+pre\s*:\s?(.*)$", body)
+        if mm:
+            c = Clause("looppre", "", mm.group(2), loop=int(mm.group(1)))
+            cur.clauses.append(c); last = ("clause", c); i += 1; continue
+        mm = re.match(r"^loop\s+(\d+)\s+head\s*:\s?(.*)$", body)
+        if mm:
+            c = Clause("loophead", "", mm.group(2), loop=int(mm.group(1)))
+            cur.clauses.append(c); last = ("clause", c); i += 1; continue
         mm = re.match(r"^loop\s+(\d+)\s+entry\s*:\s?(.*)$", body)
         if mm:
             c = Clause("loopentry", "", mm.group(2), loop=int(mm.group(1)))
@@ -888,7 +896,7 @@ def parse_template(text):
         if mm:
             c = Clause(mm.group(2), mm.group(3), mm.group(4), loop=int(mm.group(1)))
             cur.clauses.append(c); last = ("clause", c); i += 1; continue
-        mm = re.match(r'^(after|before)\s+"((?:[^"\\]|\\.)*)"\s*(?:#(\d+))?\s*:\s?(.*)$', body)
+        mm = re.match(r'^(after_arm|before_arm|after|before)\s+"((?:[^"\\]|\\.)*)"\s*(?:#(\d+))?\s*:\s?(.*)$', body)
         if mm:
             ins = [mm.group(1), _unesc(mm.group(2)), int(mm.group(3) or 1), mm.group(4)]
             cur.inserts.append(ins); last = ("insert", ins); i += 1; continue
@@ -1155,7 +1163,7 @@ def build(template_text: str, repo: str, unit: str) -> Built:
             if not meta.get("stub"):
                 fn_ranges.append((first, last, meta["fn"], props, meta["src"]))
                 for c in ex.clauses:
-                    if c.kind == "loopentry":
+                    if c.kind in ("loopentry", "looppre", "loophead"):
                         continue
                     clauses_out.append(dict(fn=meta["fn"], kind=c.kind, label=c.label,
                                             loop=c.loop, text=c.text, props=props))
@@ -1338,10 +1346,53 @@ def _build_fn(sf: SourceFile, item: Item, impl, ex: Extract, props, rep, unit, a
             rep.append(("LOST", f"proof-hint anchor {anchor!r} #{k} not found ({len(hits)} hits): hint dropped"))
             continue
         a0, b0 = hits[k - 1]
+        if where in ("after_arm", "before_arm"):
+            # the anchor lies in a match arm `PAT => EXPR,` whose body is a bare expression: wrap it as
+            # `{ EXPR; <text> }` (EXPR has type () in all uses)
+            arrow = None
+            for q2 in range(a0 + 1, b0 + 1):
+                if body_toks[q2].kind == PUNCT and body_toks[q2].text == ">" and body_toks[q2 - 1].text == "=":
+                    arrow = q2; break
+            q = a0
+            depth = 0
+            while arrow is None and q >= 1:
+                tq = body_toks[q]
+                if tq.kind == PUNCT and tq.text in CLOSE:
+                    depth += 1
+                elif tq.kind == PUNCT and tq.text in OPEN:
+                    if depth == 0:
+                        break
+                    depth -= 1
+                elif depth == 0 and tq.kind == PUNCT and tq.text == ">" and body_toks[q - 1].text == "=":
+                    arrow = q; break
+                q -= 1
+            if arrow is None:
+                rep.append(("LOST", f"after_arm anchor {anchor!r}: no `=>` found: hint dropped"))
+                continue
+            es = _next_sig(body_toks, arrow)
+            e = es
+            while e < len(body_toks):
+                te = body_toks[e]
+                if te.kind == PUNCT and te.text in OPEN:
+                    e = match_close(body_toks, e) + 1; continue
+                if te.kind == PUNCT and (te.text == "," or te.text in CLOSE):
+                    break
+                e += 1
+            if where == "after_arm":
+                body_toks[e:e] = [T("raw", "; " + text + " }")]
+                body_toks[es:es] = [T("raw", "{ ")]
+            else:
+                body_toks[e:e] = [T("raw", " }")]
+                body_toks[es:es] = [T("raw", "{ " + text + " ")]
+            continue
         if where == "after":
             pos = _stmt_end_from_start(body_toks, _stmt_start_before(body_toks, a0, 1))
         else:
             pos = _stmt_start_before(body_toks, a0, 1)
+        if where == "after":
+            pv = _prev_sig(body_toks, pos)
+            if pv >= 0 and body_toks[pv].text not in (";", "}", "{"):
+                text = "; " + text      # the statement was a block's tail expression of type ()
         body_toks[pos:pos] = [T("raw", "\n" + text + "\n")]
 
     if ex.entry:
@@ -1359,8 +1410,10 @@ def _build_fn(sf: SourceFile, item: Item, impl, ex: Extract, props, rep, unit, a
         kw = next(i for i, t in enumerate(body_toks) if getattr(t, "mark", None) == ("kw", ordn))
         br = next(i for i, t in enumerate(body_toks) if getattr(t, "mark", None) == ("brace", ordn))
         cl = loop_clauses.get(ordn, [])
-        spec = _render_loop_clauses([c for c in cl if c.kind != "loopentry"])
+        spec = _render_loop_clauses([c for c in cl if c.kind not in ("loopentry", "looppre", "loophead")])
+        lhead = "\n".join(c.text for c in cl if c.kind == "loophead")
         lentry = "\n".join(c.text for c in cl if c.kind == "loopentry")
+        lpre = "\n".join(c.text for c in cl if c.kind == "looppre")
         if ordn in ex.desugar_for:
             if body_toks[kw].text != "for":
                 raise AnchorLost(f"{qual}: loop {ordn} is not a `for` (R10)")
@@ -1378,14 +1431,14 @@ def _build_fn(sf: SourceFile, item: Item, impl, ex: Extract, props, rep, unit, a
             pat = text_of(body_toks[kw + 1:in_idx]).strip()
             expr = text_of(body_toks[in_idx + 1:br]).strip()
             it = f"verif_it{ordn}"
-            hdr = f"let mut {it} = verif_into_iter({expr});\nloop\n{spec}"
-            first = f"{{ let {pat} = match {it}.next() {{ Some(verif_x) => verif_x, None => break }};\n{lentry}\n"
+            hdr = f"let mut {it} = verif_into_iter({expr});\n{lpre}\nloop\n{spec}"
+            first = f"{{ {lhead}\nlet {pat} = match {it}.next() {{ Some(verif_x) => verif_x, None => break }};\n{lentry}\n"
             body_toks[br] = T("raw", first)
             body_toks[kw:br] = [T("raw", hdr)]
             rep.append(("R10", f"`for {pat} in {expr}` desugared to loop/match (loop {ordn})"))
         else:
-            if lentry:
-                body_toks[br + 1:br + 1] = [T("raw", "\n" + lentry + "\n")]
+            if lentry or lhead:
+                body_toks[br + 1:br + 1] = [T("raw", "\n" + lhead + "\n" + lentry + "\n")]
             if spec:
                 body_toks[br:br] = [T("raw", "\n" + spec)]
 
